@@ -80,6 +80,69 @@ def srcCharTuples (off : Int) : List Int → List String
 
 def allDistinct (vs : List V) : Bool := decide vs.Nodup
 
+/-! ### relations built by joins: the same value, stored with a permuted physical column order
+
+A relation literal stores its columns in sorted order; `<&>` appends the right operand's new columns to the left
+operand's, so a chain of joins over 1- and 2-column literals yields the same relation with its columns stored in
+another order (`{|a, c| …} <&> {|a, b| …}` is stored as a, c, b).  `where`, `with` and `|` keep that order.
+Relation.Format must project every row to the sorted heading; the sources below make it do so. -/
+
+def strHash (s : String) : Nat := s.foldl (fun h c => (h * 31 + c.toNat) % 4294967296) 7
+
+/-- the `v`-th permutation of `l` (factorial number system) -/
+def permuteBy : Nat → List α → Nat → List α
+  | 0, _, _ => []
+  | fuel + 1, l, v =>
+    if l.isEmpty then []
+    else
+      let i := v % l.length
+      match l[i]? with
+      | some x => x :: permuteBy fuel (l.eraseIdx i) (v / l.length)
+      | none => []
+
+/-- `((p1 <&> p2) <&> p3)`, `(p1 <&> (p2 <&> p3))` or a balanced tree -/
+def assocJoin : Nat → Nat → List String → String
+  | _, _, [] => "{}"
+  | _, _, [p] => p
+  | 0, _, p :: ps => p ++ (ps.map (fun q => " <&> " ++ q)).foldl (· ++ ·) ""
+  | fuel + 1, mode, ps =>
+    if mode % 3 == 0 then
+      "(" ++ assocJoin fuel mode (ps.take (ps.length - 1)) ++ " <&> " ++ (ps.getLast?.getD "{}") ++ ")"
+    else if mode % 3 == 1 then
+      "(" ++ (ps.head?.getD "{}") ++ " <&> " ++ assocJoin fuel mode (ps.drop 1) ++ ")"
+    else
+      "(" ++ assocJoin fuel mode (ps.take (ps.length / 2)) ++ " <&> " ++ assocJoin fuel mode (ps.drop (ps.length / 2)) ++ ")"
+
+def relLit (names : List String) (rows : List (List String)) : String :=
+  "{|" ++ ", ".intercalate names ++ "| " ++ ", ".intercalate (rows.map (fun r => "(" ++ ", ".intercalate r ++ ")")) ++ "}"
+
+/-- source of the relation `names`/`cells` (cell sources, rows in heading order) as a chain of joins on column `key`
+(whose values are pairwise distinct); `v` selects piece order, association, an extra 1-column piece and whether the
+last row is added by `|`, by `with` or the whole is passed through `where` -/
+def joinSrc (names : List String) (cells : List (List String)) (key v : Nat) : String :=
+  let kname := names.getD key ""
+  let others := (List.range names.length).filter (· != key)
+  let tail := v % 4                     -- 0: plain, 1: where true, 2: | literal, 3: with tuple
+  let split := (tail == 2 || tail == 3) && cells.length ≥ 2
+  let jrows := if split then cells.take (cells.length - 1) else cells
+  let piece (j : Nat) : String :=
+    relLit [kname, names.getD j ""] (jrows.map (fun r => [r.getD key "", r.getD j ""]))
+  let keyOnly := relLit [kname] (jrows.map (fun r => [r.getD key ""]))
+  let pieces0 := others.map piece
+  let pieces1 := if (v / 4) % 3 == 0 then pieces0 ++ [keyOnly] else pieces0
+  let pieces := permuteBy pieces1.length pieces1 (v / 12)
+  let joined := assocJoin pieces.length (v / 7) pieces
+  let last := cells.getLast?.getD []
+  if !split then (if tail == 1 then "(" ++ joined ++ " where true)" else joined)
+  else if tail == 2 then
+    (if (v / 5) % 2 == 0 then "(" ++ joined ++ " | " ++ relLit names [last] ++ ")"
+     else "(" ++ relLit names [last] ++ " | " ++ joined ++ ")")
+  else "(" ++ joined ++ " with (" ++ ", ".intercalate ((names.zip last).map (fun p => p.1 ++ ": " ++ p.2)) ++ "))"
+
+/-- index of a column whose values are pairwise distinct (a join key), searching from `start` -/
+def keyColumn (width start : Nat) (cols : Nat → List V) : Option Nat :=
+  ((List.range width).map (fun i => (i + start) % width)).find? (fun j => allDistinct (cols j))
+
 namespace Rep
 mutual
 def src : Rep → String
@@ -99,7 +162,14 @@ def src : Rep → String
     else "(" ++ ", ".intercalate (srcAttrs as) ++ ")"
   | .rel names rows =>
     if names.all isIdent then
-      "{|" ++ ", ".intercalate (names.map strOf) ++ "| " ++ ", ".intercalate (srcRows rows) ++ "}"
+      let lit := "{|" ++ ", ".intercalate (names.map strOf) ++ "| " ++ ", ".intercalate (srcRows rows) ++ "}"
+      -- three or more columns: mostly built by joins, so that the physical column order is a permutation
+      let h := strHash lit
+      if names.length ≥ 3 && h % 4 != 0 && rows.all (fun r => r.length == names.length) then
+        match keyColumn names.length (h / 4) (fun j => rows.map (fun r => ((denList r).getD j (V.num 0)))) with
+        | some k => joinSrc (names.map strOf) (srcCells rows) k (h / 16)
+        | none => lit
+      else lit
     else "{" ++ ", ".intercalate (srcRowTups names rows) ++ "}"
   | .tt => "true"
 def srcOpts : List (Option Rep) → List String
@@ -121,6 +191,9 @@ def srcDictAttrs : List (List Nat × Rep) → List String
 def srcRows : List (List Rep) → List String
   | [] => []
   | row :: r => ("(" ++ ", ".intercalate (srcList row) ++ ")") :: srcRows r
+def srcCells : List (List Rep) → List (List String)
+  | [] => []
+  | row :: r => srcList row :: srcCells r
 def srcRowTups (names : List (List Nat)) : List (List Rep) → List String
   | [] => []
   | row :: r =>
